@@ -38,7 +38,7 @@ type pageRec struct {
 // MainC09 is the entry point of the C09 check.
 func MainC09() {
 	ev.Main("C09", "exploration",
-		"worlds of 5-80 permanodes whose creation/modification times are drawn from a small set (massive ties), incl. pre-1970 and sub-second instants, equal instants written in different RFC 3339 zone notations (dateCreated/startDate/paymentDueDate/datePublished/dateModified attributes tied with each other, with claim dates and with file times), batches of typed (camliNodeType) permanodes with coinciding times; constraints incl. ones that pin a camliNodeType; for each permanode constraint x continuable sort {-created,-mod, unspecified = the default} x limit {1,2,3,5,n-1,n,n+1}: continuation tokens are followed until exhaustion (bounded by ceil(n/limit)+2 pages) and the concatenation must equal the unlimited ordered result as a sequence; sorts without continuation {blobref, created}: no token and a correct first page, or an exact chain; for every pivot x limit {1,2,3,4,7,n,n+1} x sort {-created,-mod,unspecified,blobref}: an around-query is empty iff the pivot is not in the full result, else a contiguous window of it containing the pivot; families: fresh request per call / ONE constraint value reused across scrolls and around queries / the query as an expression / the world delivered in 5 stages to one live corpus (claims before the file they name, stages without claims) with paging after every stage; every request is compared before/after Handler.Query; epoch worlds (permanodes created EXACTLY at 1970-01-01T00:00:00Z through date attributes in several notations and a camliContent file with modtime 0, 1 ns / 1 s next to it, claims one second before/after it: continue tokens carrying the time 0) and far worlds (date attributes before 1678 / after 2262, years 1 and 9999); cancelled-context family: one request of a scroll / an around request is issued with a caller context that is already cancelled, past its deadline, or cancelled inside Handler.Query when the candidate source is chosen: an error is accepted (the request is repeated), a success is a page like any other (the scroll must still be exactly-once, a window must hold the pivot); distinct = (family, world, constraint, sort, limit[, pivot], mode[@stage]); non-trivial = the full result has more entries than the limit",
+		"worlds of 5-80 permanodes whose creation/modification times are drawn from a small set (massive ties), incl. pre-1970 and sub-second instants, equal instants written in different RFC 3339 zone notations (dateCreated/startDate/paymentDueDate/datePublished/dateModified attributes tied with each other, with claim dates and with file times), batches of typed (camliNodeType) permanodes with coinciding times; constraints incl. ones that pin a camliNodeType; for each permanode constraint x continuable sort {-created,-mod, unspecified = the default} x limit {1,2,3,5,n-1,n,n+1}: continuation tokens are followed until exhaustion (bounded by ceil(n/limit)+2 pages) and the concatenation must equal the unlimited ordered result as a sequence; sorts without continuation {blobref, created}: no token and a correct first page, or an exact chain; for every pivot x limit {1,2,3,4,7,n,n+1} x sort {-created,-mod,unspecified,blobref}: an around-query is empty iff the pivot is not in the full result, else a contiguous window of it containing the pivot; families: fresh request per call / ONE constraint value reused across scrolls and around queries / the query as an expression / the world delivered in 5 stages to one live corpus (claims before the file they name, stages without claims) with paging after every stage; every request is compared before/after Handler.Query; epoch worlds (permanodes created EXACTLY at 1970-01-01T00:00:00Z through date attributes in several notations and a camliContent file with modtime 0, 1 ns / 1 s next to it, claims one second before/after it: continue tokens carrying the time 0) and far worlds (date attributes before 1678 / after 2262, years 1 and 9999) incl. worlds whose far dates have sub-second parts (.75, .5, 1 ns, 999999999 ns) in tied groups (also across zone notations) and near-ties within twice the fraction / a few nanoseconds, so that pages end on and next to such instants (continue tokens of the seconds.nanoseconds form with negative and positive seconds); cancelled-context family: one request of a scroll / an around request is issued with a caller context that is already cancelled, past its deadline, or cancelled inside Handler.Query when the candidate source is chosen: an error is accepted (the request is repeated), a success is a page like any other (the scroll must still be exactly-once, a window must hold the pivot); distinct = (family, world, constraint, sort, limit[, pivot], mode[@stage]); non-trivial = the full result has more entries than the limit",
 		runC09)
 }
 
@@ -545,6 +545,19 @@ func (p *pager) checkContinue(st search.SortType, lim int, full []blob.Ref) {
 		for b := lim; b < n; b += lim {
 			ta, _ := key(full[b-1])
 			tb, _ := key(full[b])
+			if !fitsInt64Nanos(ta) && ta.Nanosecond() != 0 {
+				// a page ends on an instant outside 1678..2262 that has a sub-second part
+				side := "after-2262"
+				if ta.Before(unixEpoch) {
+					side = "before-1678"
+				}
+				switch d := ta.Sub(tb); {
+				case d == 0:
+					r.Note("paging", "page-end-outside-1678-2262-with-sub-second-part/"+side+"/next-result-tied")
+				case d <= 2*time.Duration(ta.Nanosecond()):
+					r.Note("paging", "page-end-outside-1678-2262-with-sub-second-part/"+side+"/next-result-within-twice-the-fraction")
+				}
+			}
 			if !ta.Equal(tb) {
 				continue
 			}
